@@ -113,6 +113,17 @@ def convertAtRef (P : PhysConst K) (T : Transc K) (z : K) (wave : Option (List K
   | some w => convertFlux P T (w.map (· * (1 + z))) f u .photlam none none
   | none => if u = .photlam then .ok f else .error .synphotError
 
+/-- units whose conversion to PHOTLAM divides by the wavelength (per-frequency densities: `c/λ²`) -/
+def needsInvLam : FluxUnit K → Bool
+  | .photnu | .fnu | .jy _ | .abmag => true
+  | _ => false
+
+/-- is one of the (redshifted) reference wavelengths exactly zero?  NumPy then produces `inf`/`nan` for the
+per-frequency units instead of raising (never Lean's `x / 0 = 0`) -/
+def zeroRef (z : K) : Option (List K) → Bool
+  | some w => w.any fun x => decide (x * (1 + z) = 0)
+  | none => false
+
 /-- `_process_flux_param` of the two families of public classes -/
 def processFlux (P : PhysConst K) (T : Transc K) (cls : SpecClass) (z : K) (wave : Option (List K))
     (a : Arg K) : Except Err (List K) :=
@@ -122,8 +133,10 @@ def processFlux (P : PhysConst K) (T : Transc K) (cls : SpecClass) (z : K) (wave
     match cls with
     | .source =>
       match u with
-      | .flux fu => if isFluxDensity fu then convertAtRef P T z wave fu a.vals
-                    else .error .synphotError
+      | .flux fu =>
+          if isFluxDensity fu then
+            (if zeroRef z wave && needsInvLam fu then .error .nan else convertAtRef P T z wave fu a.vals)
+          else .error .synphotError
       | _ => .error .synphotError
     | .unitless =>
       match u with
